@@ -123,7 +123,8 @@ def naive_cases(draw, strategy, in_sample=False):
     sp = 1 if strategy == "drift" else draw(st.sampled_from([1, 1, 2, 3, 4, 5, 7, 8]))
     n = draw(st.integers(max(3, sp + 1), 40))
     if strategy == "last":
-        w = None
+        # a window length may be given; the last-value strategies do not use it
+        w = draw(st.one_of(st.none(), st.none(), st.integers(1, n)))
     elif strategy == "mean":
         w = draw(st.one_of(st.none(), st.integers(max(sp, 1), n)))
     else:
